@@ -117,6 +117,10 @@ side_by_side_tiff_set(struct Storage* self_,
         CHECK(self_);
         struct SideBySideTiff* self =
           containerof(self_, struct SideBySideTiff, storage);
+        // Configured again while still running: let the inner writer finish
+        // and close its data.tif first (see Tiff::set).
+        if (self->tiff)
+            self->tiff->stop(self->tiff);
         validate(props);
         CHECK(storage_properties_copy(&self->props, props));
 
